@@ -187,101 +187,141 @@ def rule_inline(prog, rep):
         rep.finding("C18.INLINE", op.name, "type", "an operation's selection set is not typed by the schema's root operation type for its operation type", op.loc())
 
 
+EXT_VARIANTS = ("Scalar", "Object", "Interface", "Union", "Enum", "InputObject")
+
+
+def _meta_atom(f, clo_ok):
+    """classify one edge fact of type_field -> (variable, predicate over its value)"""
+    k = f[0]
+    if k in ("variant", "variant_in"):
+        names = (f[2],) if k == "variant" else tuple(f[2])
+        path = f[1]
+        if all(n in EXT_VARIANTS for n in names):
+            return "V", (lambda v, ns=names: v in ns)
+        if all(n in ("Continue", "Break") for n in names):
+            return "found", (lambda v, ns=names: ("Continue" if v else "Break") in ns)
+        if all(n in ("Some", "None") for n in names):
+            if "schema_definition.query" in path:
+                return "query", (lambda v, ns=names: v in ns)
+            if re.search(r"::get_key_value@\d+$", path):
+                return "found", (lambda v, ns=names: ("Some" if v else "None") in ns)
+            if re.search(r"^var:|IndexMap::<K, V, S>::get@\d+$|::get@\d+$", path):
+                return "explicit", (lambda v, ns=names: v in ns)
+        if all(n in ("Ok", "Err") for n in names) and re.search(r"ok_or@\d+$", path):
+            return "found", (lambda v, ns=names: ("Ok" if v else "Err") in ns)
+    if k == "callbool":
+        name, args, val = f[1], f[2], f[3]
+        if re.search(r"PartialEq.*::eq$", name) and len(args) == 2:
+            lits = [re.search(r'"(\w+)"', a or "") for a in args]
+            others = [a for a, l in zip(args, lits) if not l]
+            lit = [l.group(1) for l in lits if l]
+            if len(lit) == 1 and others == ["arg3"]:
+                return "name", (lambda v, x=lit[0], val=val: (v == x) == val)
+            if sorted(a or "" for a in args) == sorted(["arg1.schema_definition.query.as:Some.0", "arg2"]) or sorted((a or "").lstrip("&*") for a in args) == ["arg1.schema_definition.query.as:Some.0", "arg2"]:
+                return "rooteq", (lambda v, val=val: v == val)
+        if re.search(r"Option::<T>::is_some_and$", name) and args and args[0] == "arg1.schema_definition.query":
+            if not clo_ok(f):
+                raise Undecided("type_field: is_some_and closure is not `query_type == type_name`")
+            return "isa", (lambda v, val=val: v == val)
+    raise Undecided("type_field: unrecognised condition %s" % (f[:4],))
+
+
 def rule_meta(prog, rep):
+    """Schema::type_field read as a decision table over (type kind, explicit field present, field
+    name, type is the query root): every row of the table is looked up among the function's CFG
+    paths (atoms = the conditions the path took), so the rule does not depend on how the function
+    spells the decisions."""
     rep.floor("C18.META", 9)
     f = prog.fn(r"^apollo_compiler::schema::Schema::type_field$")
-    # explicit field lookup per variant
-    sw = [(b, f.switch_info(b)) for b in sorted(f.live_blocks())]
-    sw = [(b, i) for b, i in sw if i and i.get("kind") == "enum" and i["adt"].endswith("schema::ExtendedType")]
-    if not sw:
-        raise Undecided("type_field: no match on ExtendedType")
-    b0, info = sw[0]
-    gets = [c for c in f.live_calls() if c.name.endswith("IndexMap::<K, V, S>::get")]
-    per = {}
-    for v in ("Scalar", "Object", "Interface", "Union", "Enum", "InputObject"):
-        t = info["edges"].get(v, info["otherwise"])
-        others = [x for vv, x in info["edges"].items() if x != t] + ([info["otherwise"]] if info["otherwise"] != t else [])
-        # the arm ends where the arms join again: stop at the first block reachable from another edge
-        reg = f.reachable_blocks([t], avoid=others)
-        join = set()
-        for o in others:
-            join |= f.reachable_blocks([o])
-        arm = [c for c in gets if c.block in reg and c.block not in join]
-        per[v] = [re.sub(r".*\.as:%s\.0\)\." % v, "", f.sym(c.args[0])) + "|" + f.sym(c.args[1]).lstrip("&") for c in arm]
-    want = {"Object": ["fields|arg3"], "Interface": ["fields|arg3"], "Scalar": [], "Union": [], "Enum": [], "InputObject": []}
-    got = {k: [x.lstrip("&") for x in v] for k, v in per.items()}
-    for v in want:
-        ok = got.get(v) == want[v]
-        rep.obligation(ok)
-        if ok:
-            rep.instance("C18.META", "type_field: %s -> %s" % (v, "fields.get(field_name)" if want[v] else "no explicit fields"))
+    from ..flow import closure_captures
+
+    def clo_ok(fact):
+        call = fact[4] if len(fact) > 4 else None
+        if call is None:
+            return False
+        uid, caps = closure_captures(f, call.args[1])
+        if uid is None or caps != ["arg2"]:
+            return False
+        clo = prog.fns[uid]
+        leaves = set(return_value_on_path(clo, p) for _a, _r, p in enum_paths(clo))
+        return len(leaves) == 1 and all(re.search(r"(^|::)eq\(&?\*?arg2, &?\*?arg1\.0\)$|(^|::)eq\(&?\*?arg1\.0, &?\*?arg2\)$", x or "") for x in leaves)
+
+    paths = []
+    for atoms, rb, path in enum_paths(f):
+        preds = []
+        for fa in atoms:
+            fs = _strip([fa])[0]
+            var, pred = _meta_atom(fa if fa[0] == "callbool" else fs, clo_ok)
+            preds.append((var, pred))
+        val = return_value_on_path(f, path) or ""
+        m = re.match(r"Result::Ok\{&\*?MetaFieldDefinitions::get\(\)\.(__\w+)\}$", val)
+        if m:
+            leaf = "meta:" + m.group(1)
+        elif re.match(r"Result::Ok\{", val) and re.search(r"IndexMap::get\(.*IndexMap::get_key_value\(&arg1\.types, &arg2\).*\.as:(Object|Interface)\.0\)\.fields, &arg3\)", val):
+            leaf = "explicit:" + re.search(r"\.as:(Object|Interface)\.0\)\.fields", val).group(1)
+        elif "NoSuchType" in val and "NoSuchField" not in val:
+            leaf = "NoSuchType"
+        elif re.match(r"Result::Err\{FieldLookupError::NoSuchField\{", val):
+            leaf = "NoSuchField"
         else:
-            rep.finding("C18.META", f.name, "explicit:" + v, "explicit field lookup for %s is %s" % (v, got.get(v)), f.loc())
-    # meta fields: the returns of &meta.X and the facts they are under
-    body = prog.hir_body(f)
-    sc = Scope(body)
-    rets = [n for n in walk(body["body"]) if n.get("k") == "ret"]
-    seen = {}
-    for r in rets:
-        k = sc.key(r["e"])
-        m = re.fullmatch(r"Ok\(meta#\d+\.(__\w+)\)", k)
-        if not m:
-            continue
-        anc = ancestors(body["body"], r)
-        conds = []
-        for a in anc:
-            if a.get("k") == "if" and any(x is r for x in walk(a["then"])):
-                conds.append(a["cond"])
-            if a.get("k") == "match":
-                for arm in a["arms"]:
-                    if any(x is r for x in walk(arm["body"])):
-                        lits = [q["v"] for q in walk(arm["pat"]) if q.get("k") == "lit"]
-                        conds.append({"k": "lit-arm", "v": lits, "scrut": a["scrut"]})
-        seen[m.group(1)] = conds
-    # __typename
-    c = seen.get("__typename")
-    ok = False
-    if c and len(c) == 1 and c[0].get("k") == "bin" and c[0]["op"] == "&&":
-        a, b = c[0]["a"], c[0]["b"]
-        ka = sc.key(a)
-        vs = set()
-        for q in walk(b):
-            if q.get("k") in ("tstruct", "path") and q.get("res") and q["res"][0] == "def" and "ExtendedType::" in q["res"][2]:
-                vs.add(q["res"][2].split("::")[-1])
-        ok = ka in ("param:field_name == '__typename'", "param:field_name == \"__typename\"") or (a.get("k") == "bin" and a["op"] == "==" and sc.key(a["a"]) == "param:field_name" and a["b"].get("v") == "__typename")
-        ok = ok and vs == {"Object", "Interface", "Union"}
-    rep.obligation(ok)
-    if ok:
-        rep.instance("C18.META", "type_field: __typename on Object / Interface / Union only")
-    else:
-        rep.finding("C18.META", f.name, "__typename", "__typename is not offered on exactly Object, Interface and Union types", f.loc())
-    for mf in ("__schema", "__type"):
-        c = seen.get(mf)
-        ok = False
-        if c and len(c) == 2:
-            root = [x for x in c if x.get("k") == "mcall"]
-            lit = [x for x in c if x.get("k") == "lit-arm"]
-            if len(root) == 1 and len(lit) == 1:
-                kr = sc.key(root[0])
-                ok = re.fullmatch(r"param:self\.schema_definition\.query\.as_ref\(\)\.is_some_and\(<closure>\)", kr) is not None
-                cl = [x for x in walk(root[0]) if x.get("k") == "closure"]
-                if ok and len(cl) == 1:
-                    cb = cl[0]["body"]
-                    ok = cb.get("k") == "bin" and cb["op"] == "==" and {Scope({"params": cl[0]["params"], "body": cb}).key(cb["a"]), sc.key(cb["b"])} == {"param:query_type", "param:type_name"}
-                ok = ok and lit[0]["v"] == [mf] and sc.key(lit[0]["scrut"]) == "param:field_name"
-        rep.obligation(ok)
-        if ok:
-            rep.instance("C18.META", "type_field: %s only when type_name is the schema's query root" % mf)
+            leaf = "?" + val[:100]
+        paths.append((preds, leaf))
+    NAMES = ("__typename", "__schema", "__type", "other")
+    bad = {}
+    nrows = 0
+    import itertools
+    for V, found, explicit, name, query, rooteq in itertools.product(EXT_VARIANTS, (True, False), ("Some", "None"), NAMES, ("Some", "None"), (True, False)):
+        root = query == "Some" and rooteq
+        env = {"V": V, "found": found, "explicit": explicit, "name": name, "query": query, "rooteq": rooteq, "isa": root}
+        leaves = set(leaf for preds, leaf in paths if all(pred(env[var]) for var, pred in preds))
+        if not found:
+            want = "NoSuchType"
+        elif V in ("Object", "Interface") and explicit == "Some":
+            want = "explicit:" + V
+        elif name == "__typename" and V in ("Object", "Interface", "Union"):
+            want = "meta:__typename"
+        elif name in ("__schema", "__type") and root:
+            want = "meta:" + name
         else:
-            rep.finding("C18.META", f.name, mf, "%s is not restricted to the query root type" % mf, f.loc())
-    # fallthrough: NoSuchField ; missing type: NoSuchType
-    errs = [s[2][1][2] for b in f.live_blocks() for s in f.stmts(b) if s[0] == "=" and s[2][0] == "agg" and isinstance(s[2][1], list) and s[2][1][0] == "adt" and s[2][1][1].endswith("FieldLookupError")]
-    ok = sorted(set(errs)) == ["NoSuchField", "NoSuchType"]
-    rep.obligation(ok)
-    if ok:
-        rep.instance("C18.META", "type_field: unknown type -> NoSuchType; otherwise -> NoSuchField")
-    else:
-        rep.finding("C18.META", f.name, "errors", "type_field's error cases are %s" % sorted(set(errs)), f.loc())
+            want = "NoSuchField"
+        nrows += 1
+        ok = leaves == {want}
+        if not leaves and explicit == "Some" and V not in ("Object", "Interface"):
+            # no path at all: the code knows that only Object / Interface have explicit fields (the
+            # other arms yield a constant None), so this combination does not exist
+            ok = True
+        rep.obligation(ok)
+        if not ok:
+            if not found:
+                key = "errors"
+            elif want.startswith("explicit") or any(l.startswith("explicit") for l in leaves):
+                key = "explicit:" + V
+            elif name != "other":
+                key = name
+            else:
+                key = "errors"
+            bad.setdefault(key, []).append((env, sorted(leaves), want))
+    for key, rows in sorted(bad.items()):
+        env, leaves, want = rows[0]
+        rep.finding("C18.META", f.name, key,
+                    "type_field decision table: for type kind %s, type %s, explicit field %s, field name %s, query root %s the result is %s, expected %s (%d rows differ)" % (
+                        env["V"], "found" if env["found"] else "missing", env["explicit"], env["name"], env["isa"], leaves or "no path", want, len(rows)), f.loc())
+    summary = [
+        ("explicit:Object", "type_field: Object -> fields.get(field_name)"),
+        ("explicit:Interface", "type_field: Interface -> fields.get(field_name)"),
+        ("explicit:Scalar", "type_field: Scalar -> no explicit fields"),
+        ("explicit:Union", "type_field: Union -> no explicit fields"),
+        ("explicit:Enum", "type_field: Enum -> no explicit fields"),
+        ("explicit:InputObject", "type_field: InputObject -> no explicit fields"),
+        ("__typename", "type_field: __typename on Object / Interface / Union only"),
+        ("__schema", "type_field: __schema only when type_name is the schema's query root"),
+        ("__type", "type_field: __type only when type_name is the schema's query root"),
+        ("errors", "type_field: unknown type -> NoSuchType; otherwise -> NoSuchField"),
+    ]
+    for key, text in summary:
+        if key not in bad:
+            rep.instance("C18.META", text)
+    rep.note("C18.META: %d rows of the decision table looked up among %d CFG paths" % (nrows, len(paths)))
 
 
 def rule_once(prog, rep):
